@@ -4,7 +4,7 @@ CONSTANTS
   WCs = {FALSE, TRUE}
   Batches = {1, 2}
   MaxEpoch = 3
-  Ops = {"Put", "GC", "Flush", "Epoch", "MarkDef", "Resync", "Restart", "Delete"}
+  Ops = {"Put", "GC", "Flush", "Epoch", "MarkDef", "Resync", "Restart", "Delete", "FlushRace"}
   Faults = {"crash"}
   Modes = {}
   BugH9 = TRUE
